@@ -149,6 +149,34 @@ def known_matcher(prop_id: str, match_fn):
 # ----------------------------------------------------------------------------------------------------------
 # Hypothesis driver
 # ----------------------------------------------------------------------------------------------------------
+class _CallTimeout(BaseException):
+    pass
+
+
+def call_with_limit(fn, seconds, clause, case, what):
+    """Call fn() - a repository call that the reference says finishes after a known, small number of steps (run() on a
+    program that stops within a few hundred instructions) - under a generous wall-clock watchdog (seconds is >= 1000 x
+    the expected time): if it has not returned by then it never will, which is a violation, not a hung check.  Only usable
+    in the main thread of a (worker) process; elsewhere the call is made unguarded."""
+    import signal
+    import threading
+    if threading.current_thread() is not threading.main_thread():
+        return fn()
+
+    def alarm(signum, frame):
+        raise _CallTimeout()
+
+    old = signal.signal(signal.SIGALRM, alarm)
+    signal.alarm(int(seconds))
+    try:
+        return fn()
+    except _CallTimeout:
+        raise Violation(clause, case, f"{what}: still running after {seconds} s although the reference stops within a few hundred steps")
+    finally:
+        signal.alarm(0)
+        signal.signal(signal.SIGALRM, old)
+
+
 def repo_exception_as_violation(e: BaseException, case):
     """An exception the check did not anticipate: if it was RAISED INSIDE the tree under test (innermost traceback frame
     under VERIF_REPO) while the check was exercising it on inputs the check holds to be valid, the code under test broke
